@@ -312,7 +312,62 @@ def witnesses(c, workdir):
             c.known("C18-K2")
 
 
+def regen_programs(c):
+    """Gen/Refresh_gen.v from pre_aggregation.py (fail closed), then: the interpreter of the translator == CPython running the real
+    methods against the same scripted connection, scenario by scenario (translator validation)."""
+    from translator import gen_refresh
+    try:
+        text = gen_refresh.generate(lib.REPO)
+        lib.write_if_changed(os.path.join(lib.COQ, "Gen", "Refresh_gen.v"), text)
+        c.obligation("translator: statement programs of _refresh_full/_refresh_incremental/_refresh_merge and the mode dispatch regenerated", True, "translator")
+    except Exception as e:
+        c.obligation("translator: statement programs of _refresh_full/_refresh_incremental/_refresh_merge and the mode dispatch regenerated", False, "translator", repr(e)[-900:])
+        return
+    try:
+        import ast as _ast
+        from sidemantic.core.pre_aggregation import PreAggregation
+        pre = PreAggregation(name="r", measures=["m"], dimensions=[], time_dimension="d", granularity="day")
+        tree = _ast.parse(open(os.path.join(lib.REPO, "sidemantic/core/pre_aggregation.py")).read())
+        cls = [n for n in tree.body if isinstance(n, _ast.ClassDef) and n.name == "PreAggregation"][0]
+        funcs = {n.name: n for n in cls.body if isinstance(n, _ast.FunctionDef)}
+        bad, n = [], 0
+        for fname in ("_refresh_full", "_refresh_incremental", "_refresh_merge"):
+            for ex in (False, True):
+                for wm in (False, True):
+                    for lb in ((False,) if fname == "_refresh_full" else (False, True)):
+                        conn = gen_refresh.Conn(ex, gen_refresh.WMV if (ex and wm) else None)
+                        real = _RealConn(conn)
+                        args = [real, gen_refresh.SRC, gen_refresh.TABLE] if fname == "_refresh_full" else \
+                            [real, gen_refresh.SRC, gen_refresh.TABLE, gen_refresh.COL, gen_refresh.LB if lb else None, None, None]
+                        getattr(pre, fname)(*args)
+                        got = [x for x in (gen_refresh.classify(q, ex and wm, lb) for q in conn.log) if x]
+                        want = gen_refresh.run_mode(funcs, fname, ex, wm, lb)
+                        n += 1
+                        if got != want:
+                            bad.append((fname, ex, wm, lb, got, want))
+        c.obligation("translator validation: interpreted statement lists == the real methods run against the scripted connection (%d scenarios)" % n, not bad, "translator", repr(bad[:2])[:900])
+    except Exception as e:
+        c.obligation("translator validation: interpreted statement lists == the real methods run against the scripted connection", False, "translator", repr(e)[-900:])
+
+
+class _RealConn:
+    """adapts translator.gen_refresh.Conn for the real methods (its private exception becomes an ordinary one)"""
+
+    def __init__(self, conn):
+        self.conn = conn
+
+    def execute(self, sql):
+        from translator import gen_refresh
+        try:
+            return self.conn.execute(sql)
+        except gen_refresh._Raise as e:
+            raise RuntimeError(str(e))
+
+
 def run(c):
+    regen_programs(c)
+    c.trusted += ["translator/gen_refresh.py: definitional interpreter over a whitelisted Python subset (fail closed) extracts the SQL statement programs of the three refresh "
+                  "strategies per scenario; validated each run against CPython running the real methods on the same scripted connection; Model/RefreshProg.exec gives the statements their meaning",]
     c.trusted += ["modelled, not verified: Model/Refresh.v is a hand-written model of PreAggregation.refresh (full / incremental / merge, stateless watermark) and of the CLI's choice of source statement; "
                   "one dimension + sum + count stand for any dimension list and any decomposable measure",
                   "the API source statement is the harness's choice: the layer's materialisation statement with a bucket-level watermark predicate (> incremental, >= merge)",
